@@ -99,11 +99,31 @@ def _facts_one(args):
 def _prune(keep):
     if not os.path.isdir(WORK):
         return
+    # other checks may be running on other trees (seed matrix, liveness self-test): never remove a cache that was used
+    # in the last half hour, and tolerate entries that vanish while we look
+    def mtime(d):
+        try:
+            return os.path.getmtime(d)
+        except OSError:
+            return 0.0
+    now = time.time()
     ds = [os.path.join(WORK, d) for d in os.listdir(WORK) if os.path.isdir(os.path.join(WORK, d))]
-    ds.sort(key=lambda d: os.path.getmtime(d), reverse=True)
+    ds.sort(key=mtime, reverse=True)
     for d in ds[48:]:
-        if os.path.basename(d) != keep:
+        if os.path.basename(d) != keep and now - mtime(d) > 1800:
             shutil.rmtree(d, ignore_errors=True)
+            try:
+                os.remove(d + ".lock")
+            except OSError:
+                pass
+    for f in os.listdir(WORK):           # lock files of caches that are gone
+        if f.endswith(".lock") and not os.path.isdir(os.path.join(WORK, f[:-5])):
+            p = os.path.join(WORK, f)
+            try:
+                if now - os.path.getmtime(p) > 1800:
+                    os.remove(p)
+            except OSError:
+                pass
 
 
 def prepare(verbose=False):
